@@ -5,7 +5,10 @@ package main
 // exact status and by status class.
 
 import (
+	"context"
+	"errors"
 	"fmt"
+	"io"
 	"net/http"
 	"net/http/httptest"
 	"strings"
@@ -18,7 +21,13 @@ import (
 )
 
 const c14DirectDoc = `{"openapi":"3.0.3","info":{"title":"t","version":"1"},"servers":[{"url":"/v1"},{"url":"/v10"}],
-"paths":{"/items":{"get":{"parameters":[{"name":"limit","in":"query","required":true,"schema":{"type":"integer","maximum":10}}],
+"components":{"securitySchemes":{"key":{"type":"apiKey","in":"header","name":"X-Key"}}},
+"paths":{
+ "/accounts":{"post":{"requestBody":{"required":true,"content":{"application/json":{"schema":{"type":"object","required":["name","password"],"properties":{"name":{"type":"string"},"password":{"type":"string","writeOnly":true}}}}}},
+  "responses":{"201":{"description":"created","content":{"application/json":{"schema":{"type":"object","required":["id","name"],"properties":{"id":{"type":"integer","readOnly":true},"name":{"type":"string"}}}}}}}}},
+ "/notes":{"post":{"security":[{"key":[]},{}],"requestBody":{"content":{"application/json":{"schema":{"type":"object","required":["x"],"properties":{"x":{"type":"integer"}}}}}},
+  "responses":{"200":{"description":"ok"}}}},
+ "/items":{"get":{"parameters":[{"name":"limit","in":"query","required":true,"schema":{"type":"integer","maximum":10}}],
  "responses":{
   "201":{"description":"exact","content":{"application/json":{"schema":{"type":"object","required":["id"],"properties":{"id":{"type":"integer"}}}}}},
   "2XX":{"description":"class","content":{"application/json":{"schema":{"type":"object","required":["name"],"properties":{"name":{"type":"string"}}}}}},
@@ -40,17 +49,31 @@ func c14DirectCases(meta *Meta) {
 		Body       string
 		Strict     bool
 		WantCalled bool
-		WantCode   int // what the client sees
+		WantCode   int    // what the client sees
+		Method     string // "" = GET
+		ReqBody    string
+	}
+	get := func(url string, status int, body string, strict, wantCalled bool, wantCode int) tc {
+		return tc{URL: url, Status: status, Body: body, Strict: strict, WantCalled: wantCalled, WantCode: wantCode}
 	}
 	cases := []tc{
 		// one server is a prefix of the other: each request belongs to the server whose path it carries in full
-		{"/v1/items?limit=5", 200, `{"name":"n"}`, true, true, 200}, {"/v10/items?limit=5", 200, `{"name":"n"}`, true, true, 200},
-		{"/v10/items?limit=50", 200, `{"name":"n"}`, true, false, 400}, {"/v100/items?limit=5", 200, `{"name":"n"}`, true, false, 404}, {"/v/items?limit=5", 200, `{"name":"n"}`, true, false, 404},
+		get("/v1/items?limit=5", 200, `{"name":"n"}`, true, true, 200), get("/v10/items?limit=5", 200, `{"name":"n"}`, true, true, 200),
+		get("/v10/items?limit=50", 200, `{"name":"n"}`, true, false, 400), get("/v100/items?limit=5", 200, `{"name":"n"}`, true, false, 404), get("/v/items?limit=5", 200, `{"name":"n"}`, true, false, 404),
 		// the exact status wins over its class, the class over default
-		{"/v1/items?limit=5", 201, `{"id":1}`, true, true, 201}, {"/v1/items?limit=5", 201, `{"name":"n"}`, true, true, 500}, {"/v1/items?limit=5", 202, `{"name":"n"}`, true, true, 202},
-		{"/v1/items?limit=5", 202, `{"id":1}`, true, true, 500}, {"/v1/items?limit=5", 404, `{"error":"e"}`, true, true, 404}, {"/v1/items?limit=5", 404, `{"name":"n"}`, true, true, 500},
-		{"/v1/items?limit=5", 201, `{"name":"n"}`, false, true, 201}, {"/v1/items?limit=5", 404, `{"name":"n"}`, false, true, 404},
+		get("/v1/items?limit=5", 201, `{"id":1}`, true, true, 201), get("/v1/items?limit=5", 201, `{"name":"n"}`, true, true, 500), get("/v1/items?limit=5", 202, `{"name":"n"}`, true, true, 202),
+		get("/v1/items?limit=5", 202, `{"id":1}`, true, true, 500), get("/v1/items?limit=5", 404, `{"error":"e"}`, true, true, 404), get("/v1/items?limit=5", 404, `{"name":"n"}`, true, true, 500),
+		get("/v1/items?limit=5", 201, `{"name":"n"}`, false, true, 201), get("/v1/items?limit=5", 404, `{"name":"n"}`, false, true, 404),
 	}
+	post := func(url, reqBody string, status int, body string, wantCalled bool, wantCode int) tc {
+		return tc{Method: "POST", ReqBody: reqBody, URL: url, Status: status, Body: body, Strict: true, WantCalled: wantCalled, WantCode: wantCode}
+	}
+	cases = append(cases,
+		// a required write-only property must be in the request, a required read-only one in the response
+		post("/v1/accounts", `{"name":"n","password":"p"}`, 201, `{"id":1,"name":"n"}`, true, 201), post("/v1/accounts", `{"name":"n"}`, 201, `{"id":1,"name":"n"}`, false, 400),
+		post("/v1/accounts", `{"name":"n","password":"p"}`, 201, `{"name":"n"}`, true, 500),
+		// optional authentication: the first alternative's callback reads the body and refuses, the empty requirement lets the request in - with its body
+		post("/v1/notes", `{"x":1}`, 200, ``, true, 200), post("/v1/notes", `{"y":1}`, 200, ``, false, 400), post("/v1/notes", `{"x":`, 200, ``, false, 400))
 	for _, rname := range []string{"legacy", "gorillamux"} {
 		var router routers.Router
 		if rname == "legacy" {
@@ -70,10 +93,21 @@ func c14DirectCases(meta *Meta) {
 				w.WriteHeader(c.Status)
 				w.Write([]byte(c.Body))
 			})
-			v := openapi3filter.NewValidator(router, openapi3filter.Strict(c.Strict))
+			v := openapi3filter.NewValidator(router, openapi3filter.Strict(c.Strict), openapi3filter.ValidationOptions(openapi3filter.Options{
+				AuthenticationFunc: func(_ context.Context, ai *openapi3filter.AuthenticationInput) error {
+					// an authenticator that looks at the body (a signature check) and refuses
+					if b := ai.RequestValidationInput.Request.Body; b != nil {
+						io.ReadAll(b)
+					}
+					return errors.New("denied")
+				}}))
 			rec := httptest.NewRecorder()
 			req := httptest.NewRequest("GET", c.URL, nil)
-			desc := map[string]any{"router": rname, "request": "GET " + c.URL, "handler_status": c.Status, "handler_body": c.Body, "strict": c.Strict}
+			if c.Method == "POST" {
+				req = httptest.NewRequest("POST", c.URL, strings.NewReader(c.ReqBody))
+				req.Header.Set("Content-Type", "application/json")
+			}
+			desc := map[string]any{"router": rname, "request": req.Method + " " + c.URL, "request_body": c.ReqBody, "handler_status": c.Status, "handler_body": c.Body, "strict": c.Strict}
 			meta.Histogram["directed end-to-end cases"]++
 			if p := catchPanic(func() { v.Middleware(h).ServeHTTP(rec, req) }); p != nil {
 				viol("directed:panic", desc, fmt.Sprint(p))
